@@ -140,6 +140,9 @@ pub fn edge_commit_and_supervision() {
     let w = word_of(pre.verif_micro_address());
     let ir_load = w.contains(Word::MAC2) && w.contains(Word::MAC0) && !w.contains(Word::MAC1);
     let byte = pre.verif_last_bus_read();
+    // "opcode fetched" is unambiguous for the instruction fetch words (MAC3); whether a SECOND byte 0x00/0x01
+    // of a two-byte instruction halts the machine is not fixed by the property: left unconstrained
+    kani::assume(!(ir_load && !w.contains(Word::MAC3) && byte <= 0x01));
     let err_ir = ir_load && byte == 0x00;
     let stop_ir = ir_load && byte == 0x01;
     let want_state = if err_commit || err_ir {
@@ -175,6 +178,7 @@ pub fn edge_commit_and_supervision_residual() {
     let ir_load = w.contains(Word::MAC2) && w.contains(Word::MAC0) && !w.contains(Word::MAC1);
     let byte = pre.verif_last_bus_read();
     kani::assume(!(err_commit && ir_load && byte == 0x01));
+    kani::assume(!(ir_load && !w.contains(Word::MAC3) && byte <= 0x01));
     let want_state = if err_commit || (ir_load && byte == 0) {
         State::ErrorStopped
     } else if ir_load && byte == 1 {
@@ -248,8 +252,10 @@ pub fn edge_wait_iff_ram_access() {
     let i = any_ram_index();
     assert!(m.bus().memory()[i] == expect.memory()[i], "RAM only by BUSWR at the A address");
     assert!(same_board(m.bus().board(), expect.board()), "board only by BUSWR");
-    let lbr = if w.contains(Word::BUSEN) { at_read.read(aval) } else { 0 };
-    assert!(m.verif_last_bus_read() == lbr, "bus latch = value read (memory as before the edge's write)");
+    if w.contains(Word::BUSEN) {
+        // (what the latch holds after a word that does not read is an implementation detail)
+        assert!(m.verif_last_bus_read() == at_read.read(aval), "bus latch = value read (memory as before the edge's write)");
+    }
     kani::cover!(access && aval == 0xEF, "RAM top");
     kani::cover!(access && aval == 0xF0, "first I/O address");
 }
